@@ -554,7 +554,9 @@ class LineWorld:
                 probes = [AttributeProbe(attr, self.dev[tgt]) for tgt, attr in d['probes']]
                 o = PeriodicSensor(d['interval'], probes, name, cap)
             else:
-                probes = [AttributeProbe(attr, None) for attr in d['probes']]
+                # the placeholder target of a part probe is replaced by the finished part at every measurement
+                ph = self.dev[d['processor']] if d.get('placeholder') == 'processor' else None
+                probes = [AttributeProbe(attr, ph) for attr in d['probes']]
                 o = OutputPartSensor(self.dev[d['processor']], probes, d.get('sensing_interval', 0), name, cap)
             for n in range(d.get('callbacks', 1)):
                 o.add_on_sense_callback(SenseCallback(self.hub, n))
